@@ -183,3 +183,99 @@ func vdrWalkChecks(c *Ctx, prop string) {
 	}
 	os.RemoveAll(base)
 }
+
+// vwFromFlat builds the tree description of a directory from a flat lstat listing
+// (relative name -> entry) made by the harness's own walk.
+func vwFromFlat(flat map[string]vdrEnt, dir string) []*vwNode {
+	var names []string
+	for rel := range flat {
+		if path.Dir(rel) == dir || (dir == "" && !strings.Contains(rel, "/")) {
+			names = append(names, rel)
+		}
+	}
+	sort.Strings(names)
+	var out []*vwNode
+	for _, rel := range names {
+		e := flat[rel]
+		nd := &vwNode{Name: path.Base(rel), Kind: e.Kind[0]}
+		switch e.Kind {
+		case "l":
+			nd.Target = e.Dest
+		case "d":
+			nd.Children = vwFromFlat(flat, rel)
+		}
+		out = append(out, nd)
+	}
+	return out
+}
+
+// runWalkChecks: the walk model against the real util.Walk on directories of a REAL run
+// (the files/ and tmp/ directories of its jobs, those with links first): what the kill
+// functions enumerate there is what the model's walk of the lstat'ed tree reports, and
+// the tree is well-formed — the hypotheses of inside_pipestance_walked /
+// removed_in_place_or_nothing, evaluated on real inputs.
+func (v *vdrRun) runWalkChecks(s *vdrSnapshot) {
+	type cand struct {
+		rel   string
+		links int
+	}
+	byDir := map[string]*cand{}
+	for rel, e := range s.Tree {
+		jd, region, ok := stageRegion(rel)
+		if !ok {
+			continue
+		}
+		d := jd + "/" + region
+		c := byDir[d]
+		if c == nil {
+			c = &cand{rel: d}
+			byDir[d] = c
+		}
+		if e.Kind == "l" {
+			c.links++
+		}
+	}
+	var cands []*cand
+	for _, c := range byDir {
+		cands = append(cands, c)
+	}
+	sort.Slice(cands, func(i, j int) bool {
+		if cands[i].links != cands[j].links {
+			return cands[i].links > cands[j].links
+		}
+		return cands[i].rel < cands[j].rel
+	})
+	for i, c := range cands {
+		if i >= 4 {
+			break
+		}
+		root := path.Join(v.psdir, c.rel)
+		if st, err := os.Lstat(root); err != nil || !st.IsDir() {
+			continue
+		}
+		var got []string
+		util.Walk(root, func(p string, info os.FileInfo, err error) error {
+			if err != nil || info == nil {
+				return nil
+			}
+			k := "f"
+			switch {
+			case info.Mode()&os.ModeSymlink != 0:
+				k = "l"
+			case info.IsDir():
+				k = "d"
+			}
+			got = append(got, hx(p)+":"+k)
+			return nil
+		})
+		sort.Strings(got)
+		flat := lstatTree(root)
+		v.res.Checks = append(v.res.Checks, VdrModelCheck{Name: "walk_on_run",
+			Req: []string{"C04.walk", hx(root), "d " + vwEncode(vwFromFlat(flat, ""))}, Expect: "wf=true " + strings.Join(got, ","),
+			What: "util.Walk of " + c.rel + " (a job directory of the run) against the model's walk of the lstat'ed tree"})
+		v.hist("walk-on-run")
+		if c.links > 0 {
+			v.hist("walk-on-run-with-links")
+		}
+	}
+}
